@@ -494,6 +494,14 @@ func (m *model) setvar(sv Setvar) {
 			m.lvlAssign[key] = map[string]bool{}
 		}
 		m.lvlAssign[key]["\x00deleted"] = true
+	case "flag":
+		// setvar:tx.key without a value sets the flag to 1 (documented)
+		m.tx[key] = "1"
+		delete(m.txOrderDep, key)
+		if m.lvlAssign[key] == nil {
+			m.lvlAssign[key] = map[string]bool{}
+		}
+		m.lvlAssign[key]["=1"] = true
 	case "=":
 		if val == "" {
 			m.amb("setvar assigns an empty value")
